@@ -12,7 +12,7 @@
 (*    estimation/sequential_filter.py:checkManeuverDetection.              *)
 (*                                                                         *)
 (* A behaviour is: Construct a detector (kind, window w, fading factor     *)
-(* delta = p/q, significance index alpha), then a history of calls         *)
+(* delta = p/q, significance indices alphas), then a history of calls      *)
 (* Step(n, d), where the input of one call is abstracted to                *)
 (*    n : numerator of the normalised innovation squared, NIS = n/NisDen   *)
 (*        (the value of chiSquareQuadraticForm(residual, innov_cvr)),      *)
@@ -26,14 +26,14 @@
 (* (exact rational), detect.  All arithmetic is exact; nothing is rounded. *)
 (*                                                                         *)
 (* The chi-square bound is transcendental: BoundTable[alpha] lists, for    *)
-(* every dof that can occur, round(chi2.isf(threshold_alpha, dof) * 10^6)  *)
+(* every dof that can occur, round(chi2.isf(threshold_alpha, dof) * 10^8)  *)
 (* (tabulated by the harness with scipy; trusted base).  A dof missing     *)
 (* from the table is an error (Assert), never a silent pass.  Metrics      *)
-(* within Band/10^6 of the tabulated bound are Undecided: the table cannot *)
+(* within Band/10^8 of the tabulated bound are Undecided: the table cannot *)
 (* adjudicate them and both answers are admissible (DESIGN.md 7-2).        *)
 (*                                                                         *)
 (* Formulas that state C17:                                                *)
-(*   DetectIffReaches    detect = (metric >= Bound[alpha][dof])            *)
+(*   DetectIffReaches    detect[a] = (metric >= Bound[a][dof])             *)
 (*   DocStandard/DocSliding/DocFading                                      *)
 (*                       metric and dof equal the documented statistic     *)
 (*                       written declaratively over the whole history      *)
@@ -70,11 +70,11 @@ outs == <<metric, dof, detect>>
 vars == <<pc, cfg, nisList, dimList, priorNum, qpow, totalDim, total, k, metric, dof, detect, hist>>
 
 \* ---------------------------------------------------------------- chi-square bound
-BoundDen    == 1000000
-BoundDenBig == BFromNat(BoundDen)
-Band        == 2               \* |metric - bound| <= Band/BoundDen is left undecided
-\* BoundTable[a] : sequence of <<dofNum, dofDen, round(bound * BoundDen)>> sorted by dof
+\* BoundTable[a] : sequence of <<dofNum, dofDen, B>> sorted by dof, where the BigNat B is
+\* round(chi2.isf(threshold_a, dof) * BoundDen) and BoundDen = Base^2 = 10^8
+Band       == 2               \* |metric - bound| <= Band/BoundDen is left undecided
 BoundTable == JsonDeserialize(IOEnv.BOUND_FILE)
+TimesBoundDen(x) == IF x = <<>> THEN <<>> ELSE <<0, 0>> \o x
 
 RECURSIVE FindDof(_, _, _, _)
 FindDof(T, x, lo, hi) ==
@@ -84,20 +84,21 @@ FindDof(T, x, lo, hi) ==
            r == x[1] * T[mid][2]
        IN IF l = r THEN mid
           ELSE IF l < r THEN FindDof(T, x, mid + 1, hi) ELSE FindDof(T, x, lo, mid - 1)
-BoundNum(a, x) ==
+BoundBig(a, x) ==
   LET T  == BoundTable[a]
       ix == FindDof(T, x, 1, Len(T))
   IN IF ix = 0 THEN Assert(FALSE, <<"NOBOUND", a, x>>) ELSE T[ix][3]
 
 \* not oneSidedChiSquareTest(metric, threshold, dof)  ==  metric >= bound.
-\* Verdict = [det |-> metric >= b/BoundDen, und |-> |metric - b/BoundDen| <= Band/BoundDen]
+\* Verdict = [det |-> metric >= B/BoundDen, und |-> |metric - B/BoundDen| <= Band/BoundDen]
+\* (cross-multiplied: s = num * BoundDen, t = B * den, slack = Band * den)
 Verdict(a, m, x) ==
-  LET b   == BoundNum(a, x)
-      s   == BMul(m.num, BoundDenBig)
-      det == BLe(BMul(BFromNat(b), m.den), s)
+  LET s     == TimesBoundDen(m.num)
+      t     == BMul(m.den, BoundBig(a, x))
+      slack == BMulSmall(m.den, Band)
+      det   == BLe(t, s)
   IN [det |-> det,
-      und |-> IF det THEN BLe(s, BMul(BFromNat(b + Band), m.den))
-                     ELSE BLe(BMul(BFromNat(IF b > Band THEN b - Band ELSE 0), m.den), s)]
+      und |-> IF det THEN BLe(s, BAdd(t, slack)) ELSE BLe(t, BAdd(s, slack))]
 Reaches(a, m, x)   == Verdict(a, m, x).det
 Undecided(a, m, x) == Verdict(a, m, x).und
 
@@ -185,7 +186,7 @@ ConstructSliding  == "sliding" \in Kinds /\ \E A \in AlphaSets, w \in Windows : 
 ConstructFading   == "fading" \in Kinds /\ \E A \in AlphaSets, dl \in Deltas : ConstructAs(FadeCfg(A, dl))
 
 Apply(r, n, d) ==
-  LET v   == TLCEval([a \in cfg.alphas |-> Verdict(a, r.metric, r.dof)])
+  LET v   == [a \in cfg.alphas |-> Verdict(a, r.metric, r.dof)]
       det == [a \in cfg.alphas |-> v[a].det]
   IN /\ nisList' = r.mem.nisList /\ dimList' = r.mem.dimList
      /\ priorNum' = r.mem.priorNum /\ qpow' = r.mem.qpow
